@@ -241,6 +241,8 @@ def r6_monitor_is_the_only_silence_rule(ctx):
 
 
 def run(ctx):
+    from . import C20 as _C20t
+    _C20t.r12_subtractions(ctx, _C20t.input_reachable(ctx))   # no subtraction (sizes, Durations) that can underflow and kill the task that computes it
     r6_monitor_is_the_only_silence_rule(ctx)
     from . import effects
     effects.check_property(ctx, "C14")    # R14.E: no operation on shared protocol state outside the reviewed table
